@@ -255,6 +255,16 @@ def run(run, tier):
         props['log'] = (props.get('log') or '') + ' | ' + xp['log'][-400:]
         run.violation('C12/proof/C12law', 'Props/C12law.v no longer checks: %s' % xp['log'][-400:],
                       {'broken': 'coq/Props/C12law.v', 'log': xp['log']}, no_input=True)
+    # independence from the set iteration order with a recovery test, for SIS, and of the
+    # transmissions (as multisets): Props/C12ord.v joins the obligations
+    xo = C.check_props('C12ord')
+    props['theorems'] = list(props['theorems']) + list(xo['theorems'])
+    props['axioms'] = dict(props['axioms'], **xo['axioms'])
+    if not xo['ok']:
+        props['ok'] = False
+        props['log'] = (props.get('log') or '') + ' | ' + xo['log'][-400:]
+        run.violation('C12/proof/C12ord', 'Props/C12ord.v no longer checks: %s' % xo['log'][-400:],
+                      {'broken': 'coq/Props/C12ord.v', 'log': xo['log']}, no_input=True)
     ok, log = C.build_driver('disc')
     if not ok:
         run.violation('C12/build', 'extracted model does not build: ' + log[-500:], {'log': log[-3000:]}, no_input=True)
